@@ -274,7 +274,7 @@ func skipInit(path string) bool {
 		strings.HasPrefix(path, "internal/syscall/") || strings.HasPrefix(path, "crypto/internal/") ||
 		strings.HasPrefix(path, "vendor/") || strings.HasPrefix(path, "golang.org/x/sys") ||
 		strings.HasPrefix(path, "modernc.org/") || strings.HasPrefix(path, "github.com/lib/pq") ||
-		strings.HasPrefix(path, "github.com/shirou/") || strings.HasPrefix(path, "net/") {
+		strings.HasPrefix(path, "github.com/shirou/") || (strings.HasPrefix(path, "net/") && path != "net/url") {
 		return true
 	}
 	return false
